@@ -416,7 +416,7 @@ func (an *Analyzer) stepUnOp(s *State, f *Frame, i *ssa.UnOp, final bool) {
 			}
 		}
 		if fa, isFA := i.X.(*ssa.FieldAddr); isFA && an.cfg.FieldNonNil != nil && !c.int && c.t != nil {
-			if an.cfg.FieldNonNil(fa.X.Type().Underlying().(*types.Pointer).Elem(), fa.Field) {
+			if an.cfg.FieldNonNil(fa.X.Type().Underlying().(*types.Pointer).Elem(), fa.Field) && !s.isnil[c.t] {
 				s.nn[c.t] = true
 			}
 		}
